@@ -44,12 +44,12 @@ CHECKS = [
     dict(pid="C19", level="model_checking",
          text="glob_match's real loop (from MIR, unrolled with an unwinding assertion) is shown equal to the recursive wildcard definition for every pattern/text up to the length bound over {a,b,*,?,.,/}; needs_transfer is decided at full 64-bit width; build_plan (from MIR, with BTreeMap/Vec/sort modelled over an ordered path universe and is_excluded as an arbitrary predicate) is shown equal to the set definition of transfer/skipped/delete for every presence/metadata/flag assignment. The solver covers all inputs inside the bound at once, which unit tests sample.",
          ref="DESIGN.md §4 C19",
-         note="Bounded: quick |p|<=4,|t|<=5 and 3 paths; thorough |p|<=6,|t|<=7 and 5 paths. NOT covered: is_excluded's std::path/str dispatch (only its boolean result is used, as an arbitrary predicate) and parse_remote_meta_output (text parsing is out of reach). Trusted: MIR dump, encoder and its std models (BTreeMap iteration in key order, Vec::push, sort = sorted permutation), validated each run against the native build.",
+         note="Bounded: quick |p|<=4,|t|<=5 and 3 paths; thorough |p|<=6,|t|<=7 and 5 paths. is_excluded (pattern trimming, per-component vs whole-path dispatch, loops over patterns and components) is executed from MIR and shown equal to its definition for 1-2 patterns (length <= 3-4) and relative paths (length <= 4-5) of '/'-separated plain names — Path::components is modelled only on that domain (no '.'/'..' components, no leading '/'). In build_plan its result is an arbitrary predicate. NOT covered: parse_remote_meta_output (text parsing is out of reach). Trusted: MIR dump, encoder and its std models (BTreeMap iteration in key order, Vec::push, sort = sorted permutation), validated each run against the native build.",
          technique="SMT over MIR (bounded loop unrolling with unwinding assertions; std collection models); counterexamples replayed natively"),
     dict(pid="C15", level="model_checking",
-         text="At the level of the plan a run executes: every name that matches an exclude pattern under the stated wildcard semantics is recognised by the real glob_match (bounded pattern/text lengths), and for every exclusion predicate build_plan never puts an excluded path in transfer or delete, produces no delete set without --delete, and deletes only paths absent from the source. Solver-decided over all inputs in the bound.",
+         text="At the level of the plan a run executes: every name that matches an exclude pattern under the stated wildcard semantics is recognised by the real glob_match, every path the exclusion definition (slash-free pattern = any single component, pattern with '/' = whole path, trailing '/' trimmed, empty ignored) excludes is reported by the real is_excluded (bounded lengths), and for every exclusion predicate build_plan never puts an excluded path in transfer or delete, produces no delete set without --delete, and deletes only paths absent from the source. Solver-decided over all inputs in the bound.",
          ref="DESIGN.md §4 C15",
-         note="The dry-run clause and the effect on the destination tree are file-system observations and are outside the claim; is_excluded's per-component/whole-path dispatch is read, not decided. Same bounds and trusted base as C19.",
+         note="The dry-run clause and the effect on the destination tree are file-system observations and are outside the claim; is_excluded's per-component/whole-path dispatch is decided from MIR on relative paths of plain names (bounded lengths; Path::components modelled on that domain only). Same bounds and trusted base as C19.",
          technique="SMT over MIR (bounded); planner-level obligations; native replay"),
     dict(pid="C14", level="model_checking",
          text="Planner level plus the local mtime arithmetic. For every pair of metadata maps in which each non-excluded source path has equal (size, whole-second mtime) at the destination, build_plan transfers nothing and (without --delete, or when the destination has no extra paths) deletes nothing; a path is in the transfer list only if it is absent or differs; needs_transfer is exact at full width. set_local_mtime (from MIR) asks the file system for exactly max(secs,0) whole seconds exactly once for every i64 and reports failures; mtime_secs returns the whole seconds since the epoch for every SystemTime.",
